@@ -702,5 +702,8 @@ void h_copy_str_no_string(void) {
   _Bool unbound = in_bool();
   unsigned m = unbound ? copy_str(3) : copy_str(2);
   COVER(m & 32u); COVER(m & 64u);
+#ifdef CANARY_COPY
+  CHECK(!unbound, "canary: deliberately false for a reachable case");
+#endif
 }
 #endif /* UNIT_COPY_STR */
